@@ -66,6 +66,9 @@ struct World {
     recv_growth: i64,
     next_tag: u8,
     deliveries: u32,
+    /// multi-frame packets emitted since when no frame of any *other* stream offset was delivered: their slot
+    /// cannot have been reclaimed, so a second emission is a duplicate delivery
+    emitted_unreclaimed: BTreeSet<u64>,
 }
 
 impl World {
@@ -87,6 +90,7 @@ impl World {
             if !fast {
                 self.touched.insert(so);
             }
+            self.emitted_unreclaimed.retain(|x| *x == so);
             if origin.is_none() {
                 self.forged_so.insert(so);
                 for p in self.pkts.iter_mut() {
@@ -200,6 +204,15 @@ impl World {
                     }
                 }
             }
+            if !fast && !self.forged_so.contains(&so) && sent.is_some() {
+                if self.emitted_unreclaimed.contains(&so) {
+                    ctx.violate(
+                        "C17/at-most-once/re-emitted-before-slot-reuse",
+                        format!("multi-frame packet so={so} was emitted a second time although no frame of any other packet arrived since its first emission (its reassembly slot cannot have been reclaimed)"),
+                    )?;
+                }
+                self.emitted_unreclaimed.insert(so);
+            }
             if let Some(pi) = sent {
                 let p = &mut self.pkts[pi];
                 if !self.forged_so.contains(&so) {
@@ -283,7 +296,10 @@ pub fn run(ctx: &mut RunCtx) -> RunResult {
         recv_growth: 0,
         next_tag: 0,
         deliveries: 0,
+        emitted_unreclaimed: BTreeSet::new(),
     };
+    let mut all_frames: Vec<Vec<Vec<u8>>> = Vec::new();
+    let mut replays = 0u32;
     let mut fragmenter = Fragmenter::new_unobserved(1500);
     let mut pool: Vec<Flight> = Vec::new();
     let mut delivered_log: Vec<Vec<u8>> = Vec::new(); // for replays by the hostile peer
@@ -321,12 +337,30 @@ pub fn run(ctx: &mut RunCtx) -> RunResult {
             if cat != data {
                 ctx.violate("C17/fragmenter/payload", "concatenated fragments differ from the packet".into())?;
             }
+            all_frames.push(frames.clone());
             for (i, f) in frames.into_iter().enumerate() {
                 pool.push(Flight { bytes: f, pkt: injected, frame_idx: i, dups: 0 });
             }
             w.pkts.push(Pkt { so, data, nframes: n, delivered: vec![false; n], ndelivered: 0, started: false, premise_ok: true, dup_involved: false, emitted: 0 });
             injected += 1;
             continue;
+        }
+        // a duplicating network / second path: the whole of an already delivered multi-frame packet arrives again
+        if mode >= 2 && replays < 3 && ctx.ch.chance(1, 10) {
+            let done: Vec<usize> = (0..w.pkts.len()).filter(|i| w.pkts[*i].nframes >= 2 && w.pkts[*i].ndelivered == w.pkts[*i].nframes).collect();
+            if !done.is_empty() {
+                let pk = done[ctx.ch.idx(done.len())];
+                replays += 1;
+                ctx.fault("replay-whole-packet");
+                let order_rev = ctx.ch.chance(1, 3);
+                let n = all_frames[pk].len();
+                for k in 0..n {
+                    let fi = if order_rev { n - 1 - k } else { k };
+                    let b = all_frames[pk][fi].clone();
+                    w.deliver(ctx, &b, Some((pk, fi)), "replay")?;
+                }
+                continue;
+            }
         }
         if pool.is_empty() {
             break;
